@@ -159,7 +159,7 @@ def gen_cases(tier, seed):
             if spell == "abs": return "@ROOT@/" + s
             if spell == "dotdot": return "by/../" + s
             return s
-        args = ["--driver", driver, "-w", str(r.choice([1, 2, 4, 8]))]
+        args = ["--driver", driver, "-w", str(r.choice([0, 1, 2, 4, 8]))]
         for o, pr in (("--fsync", 0.1), ("--no-perms", 0.1), ("--no-timestamps", 0.1), ("--ownership", 0.1), ("--no-progress", 0.1), ("--gitignore", 0.08), ("-f", 0.05)):
             if r.random() < pr:
                 args.append(o)
